@@ -69,3 +69,46 @@ def round_robin(cons, phases, n, order, levels_of):
             else:
                 rates[i] = lv[idx[i]]
     return rates, conclusive
+
+
+def min_alloc(keep, cons, phases, n, t, guard=GUARD, max_perms=24):
+    """Uninterrupted charging (documented preprocessing): every session is pre-granted its EVSE's minimum pilot, in order
+    of remaining time (less time first), if that is feasible given the minimums granted so far; a refused session gets
+    nothing in this period. Feasibility is NOT monotone in the set of loads when phases differ, so the outcome can depend
+    on the order among sessions that tie in remaining time (the library breaks such ties by list position, which the
+    property does not constrain): every order consistent with the ties is replayed and the result is returned only if
+    all agree. Returns ({station index: (lower bound, refused?)}, any_refused) or (None, _) when inconclusive."""
+    import itertools
+    rem_time = lambda x: max(0, min(x["departure"] - x["arrival"], x["departure"] - t))
+    groups = {}
+    for x in keep:
+        groups.setdefault(rem_time(x), []).append(x)
+    keys = sorted(groups)
+    nperm = 1
+    for k in keys:
+        for j in range(2, len(groups[k]) + 1):
+            nperm *= j
+    if nperm > max_perms:
+        return None, False
+    result = None
+    for combo in itertools.product(*[list(itertools.permutations(groups[k])) for k in keys]):
+        order = [x for grp in combo for x in grp]
+        rates = [0.0] * n
+        lbs = {}
+        for x in order:
+            i = x["i"]
+            rates[i] = x["min_pilot"]
+            ok, concl = feasible(cons, phases, rates, guard=guard)
+            if not concl:
+                return None, False
+            if ok:
+                lbs[i] = (x["min_pilot"], False)
+            else:
+                rates[i] = 0.0
+                lbs[i] = (0.0, True)
+        if result is None:
+            result = lbs
+        elif result != lbs:
+            return None, False
+    result = result or {}
+    return result, any(v[1] for v in result.values())
